@@ -120,7 +120,8 @@ def g_item(r, names, open_stack):
         return "<!--%s-->" % r.choice(["", "c", " x ", "-", ">"])
     if k < 0.98:
         return r.choice(DOCTYPES)
-    return r.choice(["<![CDATA[x]]>", "<?pi?>", "</>", "<br/>", "</br>", "</p>", "<image>", "&#10;", "&#10x", "\r\n"])
+    return r.choice(["<![CDATA[x]]>", "<?pi?>", "</>", "<br/>", "</br>", "</p>", "<image>", "&#10;", "&#10x", "\r\n",
+                     "<![CDATA[]]>", "<svg><![CDATA[]]>", "<math><![CDATA[]]>x", "<!---->"])
 
 
 def seq(r, names, n=None):
@@ -142,7 +143,11 @@ FAMILIES = {
     "head": HEAD * 4 + ["html", "body", "p", "frameset", "br", "b"],
     "forms": ["form", "input", "button", "fieldset", "select", "textarea", "img", "object", "output", "label"] * 3 +
              ["table", "tr", "td", "template", "p", "div", "b"],
-    "foreign": SVG + MATH + BREAKOUT[:20] + ["p", "b", "table", "font", "template", "select", "title", "script", "textarea"],
+    "foreign": SVG + MATH + BREAKOUT[:20] + ["p", "b", "table", "font", "template", "select", "title", "script", "textarea"] +
+               # names that mean something to the HTML rules but stay foreign elements inside svg / math (no break-out):
+               # every rule that looks for "a td", "a template", "an li" ... must look at the namespace too
+               ["td", "th", "tr", "caption", "tbody", "li", "dd", "option", "button", "html", "head", "frameset", "a", "nobr",
+                "foreignObject", "desc", "mi", "annotation-xml"] * 2,
     "lists": ["li", "dd", "dt", "ul", "ol", "dl", "p", "div", "address", "button", "h1", "h2", "h3", "menu", "dir", "pre",
               "listing", "blockquote", "center", "b", "a", "span"] + RUBY * 2,
     "rawtext": ["plaintext", "noscript", "title", "textarea", "style", "script", "xmp", "iframe", "noembed", "noframes", "pre",
@@ -178,8 +183,34 @@ SKELETONS = [
 ]
 
 
+# an HTML element N is open; inside it foreign content holds an element with the SAME local name N, and below that an
+# HTML integration point puts the parser back into HTML rules; then N's end tag (or start tag) arrives.  Every rule that
+# looks for "an N element" on the stack must take the namespace into account.
+_SHADOW_OPENERS = {"td": "<table><tr><td>", "th": "<table><tr><th>", "caption": "<table><caption>", "template": "<template>",
+                   "li": "<ul><li>", "p": "<p>", "button": "<button>", "a": "<a href=x>", "select": "<select>", "dd": "<dl><dd>",
+                   "dt": "<dl><dt>", "h1": "<h1>", "form": "<form>", "nobr": "<nobr>", "b": "<b>", "table": "<table>",
+                   "option": "<select><option>", "body": "<body>", "div": "<div>", "tr": "<table><tr>", "tbody": "<table><tbody>",
+                   "applet": "<applet>", "marquee": "<marquee>", "object": "<object>", "rp": "<ruby><rp>", "address": "<address>"}
+_INTEGRATION = ["<foreignObject>", "<desc>", "<title>"]
+_MATH_INTEGRATION = ["<mi>", "<mtext>", "<annotation-xml encoding=text/html>", "<annotation-xml encoding=application/xhtml+xml>"]
+
+
+def gen_foreign_shadow(r):
+    n = r.choice(sorted(_SHADOW_OPENERS))
+    if r.random() < 0.7:
+        inner = "<svg><%s>%s" % (n, r.choice(_INTEGRATION))
+    else:
+        inner = "<math><%s>%s" % (n, r.choice(_MATH_INTEGRATION))
+    body = r.choice(["", "<b>", "<p>q", "t", "<i><b>", "<div>"])
+    closer = r.choice(["</%s>" % n, "</%s>" % n, "<%s>" % n, "</%s></%s>" % (n, n)])
+    tail = r.choice(["x", "x</table>y", "<p>z", " w", ""]) + (seq(r, FAMILIES["any"], r.randint(1, 3)) if r.random() < 0.3 else "")
+    return _SHADOW_OPENERS[n] + inner + body + closer + tail
+
+
 def gen_tree_html(r):
     k = r.random()
+    if k < 0.05:
+        return gen_foreign_shadow(r)
     if k < 0.30:
         s = r.choice(SKELETONS)
         fam = r.choice(sorted(FAMILIES))
